@@ -43,6 +43,7 @@ type AdvCfg struct {
 	AnnounceFirst   bool      `json:"announce_first,omitempty"` // announce before broadcasting
 	Reannounce      int       `json:"reannounce,omitempty"`
 	ConfirmNow      int       `json:"confirm_now,omitempty"` // mine this many blocks right after broadcasting
+	FeeDest         string    `json:"fee_dest,omitempty"`    // "third": the fee invoice names another node as destination
 
 	PayFee       bool        `json:"pay_fee,omitempty"`
 	PayClaim     bool        `json:"pay_claim,omitempty"`
@@ -356,6 +357,10 @@ func (p *advPeer) onMessage(from int, typ int, payload []byte) {
 				s.feeInv = inv
 				payreq = inv.Payreq
 				p.byHash[inv.Hash] = s
+				if cfg.FeeDest == "third" {
+					// a fee invoice of somebody else: same hash and amount, foreign destination
+					payreq = EncodePayreq(inv.Hash, msat, 9, w.Nodes[2].Pubkey, inv.ExpiresAt.Milliseconds(), s.id)
+				}
 			}
 		}
 		p.send(MsgSwapOutAgreement, map[string]interface{}{"protocol_version": p.version(), "swap_id": s.id, "pubkey": p.pubkeyFor(s.key), "payreq": payreq, "premium": s.premium})
